@@ -18,7 +18,7 @@ use crate::{
     typedesc::TypeDesc,
     CreateError, CreateResult,
   },
-  structure::{sequence_number::SequenceNumber, time::Timestamp},
+  structure::{guid::GuidPrefix, sequence_number::SequenceNumber, time::Timestamp},
   GUID,
 };
 use super::cache_change::CacheChange;
@@ -264,6 +264,24 @@ impl TopicCache {
         self.remove_sn(&old_cc);
         old_cc
       })
+    }
+  }
+
+  // Remove everything received from the writers of the given participant, as if
+  // nothing had ever been received from them.
+  pub fn forget_participant(&mut self, participant: GuidPrefix) {
+    let writers: Vec<GUID> = self
+      .sequence_numbers
+      .range(participant.range())
+      .map(|(guid, _)| *guid)
+      .collect();
+    for writer in writers {
+      if let Some(sn_map) = self.sequence_numbers.remove(&writer) {
+        for instant in sn_map.values() {
+          self.changes.remove(instant);
+        }
+      }
+      self.received_reliably_before.remove(&writer);
     }
   }
 
